@@ -99,6 +99,18 @@ func C10(c *Case) *Result {
 			rec.Shape = []string{"wav", "bmp"}[t.Intn(2)]
 		}
 	}
+	if t.Intn(5) == 0 {
+		// boundary regime: the last (or only) block holds a power of two of bytes, or one more or
+		// less. Codecs change layout with the amount of data they are given (chunk counts, small
+		// block paths, number of BWT primary indexes), and `<` against `<=` at such a switch is
+		// part of the format
+		tl := 1 << uint(3+t.Intn(14)) // 8 .. 65536
+		for tl > cfg.BlockSize {
+			tl >>= 1
+		}
+		rec.Len = cfg.BlockSize*t.Intn(maxBlocks) + tl + t.Range(-1, 1)
+		res.Probes["boundary.block.length"]++
+	}
 	if t.Intn(10) == 0 {
 		// large-block regime: one or two blocks of 150 KiB .. 1 MiB (thorough: up to 5 MiB) of
 		// compressible data. Codecs switch parameters with the amount of data in a block (chunk
